@@ -217,7 +217,38 @@ class Interp:
     def deref(self, v):
         while isinstance(v, Ref):
             v = v.get()
+        if isinstance(v, SymVec) and not v.resolved:
+            self.resolve_vec(v)
         return v
+
+    def resolve_vec(self, v):
+        """Fork on the length of a symbolic-length vector (solver-checked)."""
+        k = self.ctx.choose([v.n == i for i in range(len(v.all_items) + 1)])
+        v.items = list(v.all_items[:k])
+        v.resolved = True
+        return v
+
+    def symvec_eq(self, a, b, node):
+        """Merged equality of vectors whose lengths may be symbolic."""
+        def length(x):
+            if isinstance(x, SymVec) and not x.resolved:
+                return x.n, x.all_items
+            return len(x.items), x.items
+        na, ia = length(a)
+        nb, ib = length(b)
+        res = False
+        for k in range(0, min(len(ia), len(ib)) + 1):
+            ca = (na == k) if not isinstance(na, int) else (na == k)
+            cb = (nb == k) if not isinstance(nb, int) else (nb == k)
+            if ca is False or cb is False:
+                continue
+            elems = True
+            for i in range(k):
+                elems = b_and(elems, self.eq_values(ia[i], ib[i], node))
+                if elems is False:
+                    break
+            res = b_or(res, b_and(ca, cb, elems))
+        return res
 
     def strip(self, v):
         v = self.deref(v)
@@ -408,6 +439,13 @@ class Interp:
 
     # -------------------------------------------------------------- equality
     def eq_values(self, a, b, node=None):
+        while isinstance(a, Ref):
+            a = a.get()
+        while isinstance(b, Ref):
+            b = b.get()
+        if (isinstance(a, SymVec) and not a.resolved and isinstance(b, Vec)) or \
+                (isinstance(b, SymVec) and not b.resolved and isinstance(a, Vec)):
+            return self.symvec_eq(a, b, node)
         a, b = self.deref(a), self.deref(b)
         if isinstance(a, Opaque) or isinstance(b, Opaque):
             return self.havoc("eq-on-opaque")
@@ -518,6 +556,15 @@ class Interp:
         return res
 
     def str_eq(self, a, b):
+        if isinstance(a, AtomStr) or isinstance(b, AtomStr):
+            if isinstance(a, AtomStr) and isinstance(b, AtomStr):
+                if a.table != b.table:
+                    self.unsupported("comparison of atoms over different tables")
+                return simp(a.atom == b.atom)
+            at, other = (a, b) if isinstance(a, AtomStr) else (b, a)
+            if other.conc:
+                return simp(at.atom == at.table.index(other.s)) if other.s in at.table else False
+            self.unsupported("atom string compared with a symbolic string")
         if a.s is None or b.s is None:
             return self.havoc("eq-on-unknown-string")
         if a.conc and b.conc:
@@ -529,6 +576,25 @@ class Interp:
 
     def map_eq(self, a, b, node):
         # set-of-pairs equality for maps with pairwise-distinct keys (model of HashMap/HashTrieMap ==)
+        na, nb = getattr(a, "n", None), getattr(b, "n", None)
+        if na is not None or nb is not None:
+            # maps with a symbolic number of live entries (a prefix of all_entries): merged over the sizes
+            ea = a.all_entries if na is not None else a.entries
+            eb = b.all_entries if nb is not None else b.entries
+            res = False
+            for k in range(0, min(len(ea), len(eb)) + 1):
+                ca = (na == k) if na is not None else (len(ea) == k)
+                cb = (nb == k) if nb is not None else (len(eb) == k)
+                if ca is False or cb is False:
+                    continue
+                inner = True
+                for ka, va in ea[:k]:
+                    found = False
+                    for kb, vb in eb[:k]:
+                        found = b_or(found, b_and(self.eq_values(ka, kb, node), self.eq_values(va, vb, node)))
+                    inner = b_and(inner, found)
+                res = b_or(res, b_and(ca, cb, inner))
+            return res
         if len(a.entries) != len(b.entries):
             return False
         res = True
@@ -548,10 +614,18 @@ class Interp:
 
     # ----------------------------------------------------------------- clone
     def clone(self, v):
+        while isinstance(v, Ref):
+            v = v.get()
+        if isinstance(v, SymVec) and not v.resolved:
+            return v   # template vectors are immutable: cloning does not need their length
         v = self.deref(v)
         if isinstance(v, Struct):
             s = Struct(v.name, {k: self.clone(x) for k, x in v.fields.items()}, v.partial)
             return s
+        if isinstance(v, SymVec) and not v.resolved:
+            return v   # template vectors are immutable
+        if isinstance(v, AtomStr):
+            return v
         if isinstance(v, Vec):
             return Vec([self.clone(x) for x in v.items], v.kind)
         if isinstance(v, Map):
@@ -1600,9 +1674,13 @@ class Interp:
         finally:
             self.scopes, self.fn = saved_scopes, saved_fn
 
-    def call_user(self, fn, args, self_ty=None):
+    def call_user_body(self, fn, args, self_ty=None):
+        """Execute the real body of `fn` even if a native override is registered for nested calls to it."""
+        return self.call_user(fn, args, self_ty, skip_native=True)
+
+    def call_user(self, fn, args, self_ty=None, skip_native=False):
         name = (self_ty + "::" if self_ty else "") + fn["name"]
-        if name in self.natives:
+        if name in self.natives and not skip_native:
             return self.natives[name](self, args, fn)
         if name in self.opaque_fns or fn["name"] in self.opaque_fns:
             # opaque but functional: the label records which arguments it was applied to
